@@ -161,13 +161,78 @@ func init() {
 	}
 }
 
-// GenBatch draws n configurations for prop, builds them and writes the accepted ones.
-func GenBatch(t Target, prop string, seed uint64, n int, outdir string) *GenOut {
+// enumShape returns configuration j of the exhaustive family of C05: 4 three-service shapes x all
+// 4^3 assignments of {unset, shared, contextual, non_shared} to (a, b, c).
+func enumShape(j int) *gen.Cfg {
+	scopes := []string{"", "shared", "contextual", "non_shared"}
+	shape, as := j%4, j/4 // interleaved, so that any prefix covers all four shapes
+	sc := []string{scopes[as%4], scopes[(as/4)%4], scopes[(as/16)%4]}
+	fx := `"` + gen.FxPath + `"`
+	node := func(name string, scope string, args ...gen.Arg) gen.Svc {
+		return gen.Svc{Name: name, Ctor: fx + ".NewNode", Args: append([]gen.Arg{{Kind: "str", S: name}}, args...), Scope: scope}
+	}
+	ref := func(n string) gen.Arg { return gen.Arg{Kind: "svc", S: n} }
+	c := &gen.Cfg{}
+	switch shape % 4 {
+	case 0: // chain through constructor arguments
+		c.Services = []gen.Svc{node("a", sc[0], ref("b")), node("b", sc[1], ref("c")), node("c", sc[2])}
+	case 1: // fan-out, one edge through a field, one through a call
+		a := node("a", sc[0])
+		a.Fields = []gen.Field{{Name: "F1", V: ref("b")}}
+		a.Calls = []gen.Call{{Method: "SetA", Args: []gen.Arg{ref("c")}}}
+		c.Services = []gen.Svc{a, node("b", sc[1]), node("c", sc[2])}
+	case 2: // tag edge: a injects everything tagged t, b carries t and depends on c
+		b := node("b", sc[1], ref("c"))
+		b.Tags = []gen.Tag{{Name: "t"}}
+		c.Services = []gen.Svc{node("a", sc[0], gen.Arg{Kind: "tagged", S: "t"}), b, node("c", sc[2])}
+	case 3: // decorator edge: a carries t, the decorator of t takes b, b depends on c through a wither
+		a := node("a", sc[0])
+		a.Tags = []gen.Tag{{Name: "t", HasPrio: true, Prio: 1}}
+		b := node("b", sc[1])
+		b.Calls = []gen.Call{{Method: "WithA", Args: []gen.Arg{ref("c")}, Wither: true}}
+		c.Services = []gen.Svc{a, b, node("c", sc[2])}
+		c.Decorators = []gen.Dec{{Tag: "t", Fn: fx + ".Decorate", Args: []gen.Arg{ref("b")}}}
+	}
+	return c
+}
+
+// enumCfg15 is the small configuration whose histories C15 enumerates exhaustively.
+func enumCfg15() *gen.Cfg {
+	fx := `"` + gen.FxPath + `"`
+	return &gen.Cfg{
+		Params: []gen.Param{
+			{Name: "p1", V: gen.Arg{Kind: "pattern", Chunks: []gen.Chunk{{Kind: "todo"}}}},
+			{Name: "p2", V: gen.Arg{Kind: "pattern", Chunks: []gen.Chunk{{Kind: "ref", S: "p1"}, {Kind: "lit", S: "-x"}}}},
+			{Name: "p3", V: gen.Arg{Kind: "int", I: 7}},
+		},
+		Services: []gen.Svc{
+			{Name: "s1", Todo: true},
+			{Name: "s2", Ctor: fx + ".NewNode", Args: []gen.Arg{{Kind: "str", S: "s2"}, {Kind: "svc", S: "s1"}, {Kind: "pattern", Chunks: []gen.Chunk{{Kind: "ref", S: "p2"}}}}},
+			{Name: "s3", Ctor: fx + ".NewNode", Args: []gen.Arg{{Kind: "str", S: "s3"}, {Kind: "pattern", Chunks: []gen.Chunk{{Kind: "ref", S: "p3"}}}}},
+		},
+	}
+}
+
+// GenBatch draws n configurations for prop (plus nenum of the exhaustive family), builds them and
+// writes the accepted ones.
+func GenBatch(t Target, prop string, seed uint64, n int, outdir string, nenum int) *GenOut {
 	out := &GenOut{Prop: prop}
-	for i := 0; i < n; i++ {
+	total := n + nenum
+	if prop == "C15" {
+		total = n + 1
+	}
+	for i := 0; i < total; i++ {
 		src := choice.New(choice.Mix(seed^0x9e3779b97f4a7c15, uint64(i)))
-		cfg := gen.GenCfg(src, optsFor(prop, src))
+		var cfg *gen.Cfg
 		name := fmt.Sprintf("c%03d", i)
+		switch {
+		case i < n:
+			cfg = gen.GenCfg(src, optsFor(prop, src))
+		case prop == "C15":
+			cfg, name = enumCfg15(), "cenum"
+		default:
+			cfg, name = enumShape(i-n), fmt.Sprintf("e%03d", i-n)
+		}
 		cfg.Meta.Pkg = &name
 		w := CfgWorld(src, cfg)
 		r := Exec(t, w)
